@@ -74,6 +74,15 @@ def fetch(obj, getter):
     return obj
 
 
+def writable(obj):
+    """'everything a caller obtains from a successful load satisfies the same constraints that writing enforces'"""
+    try:
+        obj.dumps()
+        return True
+    except (ValueError, TypeError):
+        return False
+
+
 def corrupt_leaf(sym, fmt, path, rule, maxlen, getter, k):
     """one leaf takes any value outside its documented domain: the load fails, or what it yields is valid again"""
     doc = base_doc(fmt, k)
@@ -104,6 +113,7 @@ def corrupt_leaf(sym, fmt, path, rule, maxlen, getter, k):
     lk = kind_of(loaded)
     ok = in_domain(sym, rule, lk, loaded)
     sym.check("rejected-or-valid-after-load", ok is None or ok)
+    sym.check("what-was-loaded-can-be-written", writable(obj))
 
 
 def header_type(sym, fmt, k):
@@ -212,6 +222,29 @@ def tree_corrupt_option(sym, section, option, rule, maxlen, getter, k):
     loaded = tree_fetch(ti, getter)
     ok = in_domain(sym, rule, kind_of(loaded), loaded)
     sym.check("rejected-or-valid-after-load", ok is None or ok)
+    sym.check("what-was-loaded-can-be-written", writable(ti))
+
+
+CHILD_SECTIONS = {"Server-HA": ("addon-Server-HA", "HA"), "Server-optional": ("variant-Server-optional", "optional")}
+
+
+def tree_child_misaligned(sym, child, k):
+    """a child variant whose id does not continue its parent's UID (first or later child alike) is rejected"""
+    p = tree_parser(k)
+    section, vid = CHILD_SECTIONS[child]
+    v = sym.str("v", 8, minlen=1, alphabet="alnum")
+    sym.assume(v != vid)
+    p.set(section, "id", v)
+    sym.cover("corrupted")
+    ti = productmd.treeinfo.TreeInfo()
+    try:
+        ti.loads(tree_text(p))
+        raised = False
+    except Exception:
+        raised = True
+    sym.check("misaligned-child-uid-rejected", raised)
+    if not raised:
+        sym.check("what-was-loaded-can-be-written", writable(ti))
 
 
 def tree_header(sym, k):
@@ -342,6 +375,13 @@ def jobs(tier, seed):
             ("images-xen", "kernel", "relative-path", 5, ["images", "images", "[xen]", "[kernel]"]),
             ("images-" + arch, "boot.iso", "relative-path", 5, ["images", "images", "[%s]" % arch, "[boot.iso]"])]:
         out.append({"harness": "tree_corrupt_option", "params": {"section": section, "option": option, "rule": rule, "maxlen": maxlen, "getter": getter, "k": k}})
+    for section, option, rule, maxlen, getter in [
+            ("addon-Server-HA", "type", "tree-variant-type", 10, ["variants", "[Server]", "variants", "[HA]", "type"]),
+            ("variant-Server-optional", "type", "tree-variant-type", 10, ["variants", "[Server]", "variants", "[optional]", "type"]),
+            ("addon-Server-HA", "id", "tree-variant-id", 6, ["variants", "[Server]", "variants", "[HA]", "id"])]:
+        out.append({"harness": "tree_corrupt_option", "params": {"section": section, "option": option, "rule": rule, "maxlen": maxlen, "getter": getter, "k": k}})
+    for child in sorted(CHILD_SECTIONS):
+        out.append({"harness": "tree_child_misaligned", "params": {"child": child, "k": k}})
     out.append({"harness": "tree_header", "params": {"k": k}})
     out.append({"harness": "tree_version", "params": {"k": k}})
     for section, option in [("release", None), ("release", "name"), ("release", "version"), ("base_product", None), ("base_product", "short"),
@@ -354,7 +394,7 @@ def jobs(tier, seed):
 
 META = {
     "expected_covers": {"corrupt_leaf": ["corrupted"], "header_type": ["loaded"], "header_version": ["loaded"], "delete_key": ["loaded"],
-                        "images_identity_collision": ["loaded"], "tree_corrupt_option": ["corrupted"], "tree_header": ["loaded"], "tree_version": ["loaded"], "tree_delete": ["loaded"]},
+                        "images_identity_collision": ["loaded"], "tree_corrupt_option": ["corrupted"], "tree_child_misaligned": ["corrupted"], "tree_header": ["loaded"], "tree_version": ["loaded"], "tree_delete": ["loaded"]},
     "assumptions": [
         "base documents are produced by the real writer from valid objects (nested/layered-product variants, three images, one payload entry); one corruption at a time",
         "oracle: the load raises, or the value found in the loaded object is again inside the documented domain (the readers normalise e.g. numeric strings, "
